@@ -38,6 +38,7 @@ _ADDR = __import__("re").compile(r"0x[0-9a-fA-F]+")
 HEADER = '''
 import array
 import collections
+import functools
 import os
 import reprlib
 import icontract
@@ -70,8 +71,24 @@ class Holder:
     def method(self):
         return 1
 
+    @staticmethod
+    def helper(q):
+        return q
+
+    @classmethod
+    def make(cls):
+        return cls()
+
 
 HOLDER = Holder()
+RAW_STATIC = vars(Holder)["helper"]
+RAW_CLASSMETHOD = vars(Holder)["make"]
+
+
+@functools.lru_cache(maxsize=None)
+def memoized(q):
+    """A function all the same (its representation carries a memory address like that of any other routine)."""
+    return q
 
 
 @icontract.require(lambda q: q > 0, description="unrelated")
@@ -80,9 +97,11 @@ def unrelated(q):
 
 '''
 
-EXTRA_PARAMS = ["ss", "fs", "ms", "mfs", "bs", "bfs", "sfs", "big", "dq", "arr", "cls_arg", "fn_arg", "meth_arg", "mod_arg", "builtin_arg"]
+EXTRA_PARAMS = ["ss", "fs", "ms", "mfs", "bs", "bfs", "sfs", "big", "dq", "arr", "cls_arg", "fn_arg", "meth_arg", "mod_arg", "builtin_arg", "cached_arg", "static_arg",
+                "clsm_arg"]
 EXTRA_VALUES = {
-    "cls_arg": "int", "fn_arg": "unrelated", "meth_arg": "HOLDER.method", "mod_arg": "os", "builtin_arg": "len",
+    "cls_arg": "int", "fn_arg": "unrelated", "meth_arg": "HOLDER.method", "mod_arg": "os", "builtin_arg": "len", "cached_arg": "memoized",
+    "static_arg": "RAW_STATIC", "clsm_arg": "RAW_CLASSMETHOD",
 }
 
 TEMPLATES = [
@@ -156,7 +175,7 @@ def run(w) -> None:
     for i in range(per_shard):
         env = exprs.Env(rng, {}, with_none=rng.random() < 0.3)
         # (a third of the functions take only a few of the extra arguments: what is listed must not depend on how many there are)
-        params = env.params() + (EXTRA_PARAMS if rng.random() < 0.67 else ["ss", "fs", "big", "cls_arg", "fn_arg", "meth_arg", "mod_arg", "builtin_arg"])
+        params = env.params() + (EXTRA_PARAMS if rng.random() < 0.67 else ["ss", "fs", "big", "cls_arg", "fn_arg", "meth_arg", "mod_arg", "builtin_arg", "cached_arg", "static_arg", "clsm_arg"])
         if rng.random() < 0.25:
             expr, lam = rng.choice(TEMPLATES)
         else:
@@ -329,7 +348,7 @@ def run(w) -> None:
                         break
         if keys != sorted(keys):
             w.violation("C20/value-lines-not-sorted", "entries are keyed {} which is not sorted".format(keys), case, {"parts": parts})
-        for bad in ("cls_arg", "fn_arg", "meth_arg", "mod_arg", "builtin_arg"):
+        for bad in ("cls_arg", "fn_arg", "meth_arg", "mod_arg", "builtin_arg", "cached_arg", "static_arg", "clsm_arg"):
             w.count("filtered_argument_checks")
             if bad in keys:
                 w.violation("C20/non-representable-argument-listed/" + bad, "the message lists {} (a class/function/method/module/builtin)".format(bad), case,
@@ -340,7 +359,8 @@ def run(w) -> None:
             # module (which carries a memory address, different in every process)
             if "(" not in key and "[" not in key:
                 w.count("filtered_argument_checks")
-                if vstr.startswith(("<method-wrapper", "<built-in method", "<bound method", "<function ", "<slot wrapper", "<method '", "<class '", "<module '")):
+                if vstr.startswith(("<method-wrapper", "<built-in method", "<bound method", "<function ", "<slot wrapper", "<method '", "<class '", "<module '", "<functools._lru_cache_wrapper",
+                                    "<staticmethod", "<classmethod")):
                     w.violation("C20/routine-or-class-listed", "the message lists `{} was {}`".format(key, vstr[:80]), case, {"parts": parts})
         for key in keys:
             # names which only the builtins module provides (functions, classes and constants such as NotImplemented, Ellipsis, __debug__)
